@@ -227,6 +227,8 @@ const (
 	stepWait     = 2 * time.Second
 )
 
+var tracePolluted bool
+
 func replay(variant string, idx int, beh []Step) {
 	ctl := sched.New()
 	ctl.Install()
@@ -337,6 +339,13 @@ func replay(variant string, idx int, beh []Step) {
 			if !ctl.WaitParked("req.wait", c.opid, stepWait) {
 				res.Notes = append(res.Notes, fmt.Sprintf("behaviour %d: caller %d did not reach G0", idx, s.C))
 				diverged, abort = true, true
+				// neither at its select nor returned: whatever holds it, the call must still come back by its deadline
+				select {
+				case <-c.done:
+				case <-time.After(time.Until(c.started.Add(c.timeout + time.Second))):
+					violate("C13", "request-blocked-before-select", fmt.Sprintf("%s: Request of caller %d was still inside the transport, before its select, %v after it started (timeout %v)", variant, s.C, time.Since(c.started).Round(time.Millisecond), c.timeout), prefix(i))
+					wedged = true
+				}
 				break
 			}
 			if n := frugal.VerifRegistrySize(unwrap(tr)); n != s.Reg && !diverged {
@@ -503,9 +512,17 @@ func replay(variant string, idx int, beh []Step) {
 		}()
 		ctl.WaitEvent(0, stepWait, func(e sched.Event) bool { return e.Point == "req.wait" && e.ID == fid })
 		p.inject(fid)
-		<-fdone
+		freshBack := true
+		select {
+		case <-fdone:
+		case <-time.After(1500*time.Millisecond + 3*time.Second):
+			freshBack = false
+		}
 		el := time.Since(t0)
-		if fgot != int64(fid) {
+		if !freshBack {
+			violate("C13", "fresh-request-never-returned", fmt.Sprintf("%s: after the prefix a fresh Request with a 1.5 s timeout had not returned after %v", variant, el), beh[:executed])
+			wedged = true
+		} else if fgot != int64(fid) {
 			violate("C06", "fresh-request-not-served", fmt.Sprintf("%s: after the inbound prefix a fresh request got %d (%s) after %v instead of its own response", variant, fgot, ferr, el), beh[:executed])
 		} else if el > time.Second {
 			violate("C06", "fresh-request-slow", fmt.Sprintf("%s: fresh request served after %v", variant, el), beh[:executed])
@@ -549,8 +566,12 @@ func replay(variant string, idx int, beh []Step) {
 	if size != 0 && !wedged {
 		violate("C01", "registry-leak", fmt.Sprintf("%s: %d registrations left after every caller returned", variant, size), beh[:executed])
 	}
-	// ---- trace for TLC (only complete, un-wedged runs; a wedged run is already a violation) ----
-	if !wedged {
+	// ---- trace for TLC (only complete, un-wedged runs; a wedged run is already a violation, and the goroutines it leaves
+	// behind go on reporting to the hooks of later runs, so no trace is recorded after the first wedge) ----
+	if wedged {
+		tracePolluted = true
+	}
+	if !wedged && !tracePolluted {
 		for _, e := range ctl.Events() {
 			switch e.Point {
 			case "reg.add", "reg.del":
